@@ -25,7 +25,9 @@ ASSUMPTIONS = [
 def _path(draw, n=None, d=1):
     n = n or draw(st.integers(2, 12))
     gaps = [draw(_f(0.01, 0.5)) for _ in range(n - 1)]
-    times = [0.0] + [float(f"{v:.6g}") for v in np.cumsum(gaps)]
+    # most grids start at 0 (what the engines produce); a fifth start later (seasoned / forward-start fixing dates)
+    t0 = draw(st.sampled_from([0.0, 0.0, 0.0, 0.0, 0.25]))
+    times = [t0] + [float(f"{t0 + v:.6g}") for v in np.cumsum(gaps)]
     rows = []
     for _ in range(d):
         s = draw(_f(20.0, 200.0))
@@ -222,7 +224,8 @@ def body_underlying(case):
     elif kind == "asian":
         if not (S.min() - 1e-9 <= float(a) <= S.max() + 1e-9):
             out.append(Violation("C17/underlying/asian/average-outside-the-path-range", f"{a} not in [{S.min()},{S.max()}]; {detail}"))
-        ref = float(np.sum(S[0, 1:] * np.diff(times)) / times[-1])
+        # time-weighted average over [0, t_n] of the right-continuous step path (S(t_0) on [0, t_0])
+        ref = float(np.sum(S[0] * np.diff(times, prepend=0.0)) / times[-1])
     elif kind == "mean":
         ref = float(S[:, -1].mean())
     elif kind == "performances":
@@ -391,21 +394,21 @@ SUBCHECKS = [
                   "vanilla, forward, digital, call spread, Asian call, CDS on a default time): every evaluation equals a "
                   "fresh product's in the current representation and repeats; non-trivial = >= 2 evaluations with a "
                   "barrier product or an evaluation after a switch",
-             strategy=strat_history, budget={"quick": 1600, "thorough": 30000},
+             strategy=strat_history, budget={"quick": 4800, "thorough": 30000},
              essential_labels=("switch-then-evaluate", "log-then-identity")),
     SubCheck("underlyings-in-both-representations", body_underlying, classify_underlying,
              rule="every underlying class on generated positive paths (1-3 assets, 2..12 points): value in identity "
                   "representation = value on the logarithms in log representation = harness definition (average, "
                   "performances, default times by a reference scan, n-th default non-decreasing in n)",
-             strategy=strat_underlying, budget={"quick": 1600, "thorough": 30000}),
+             strategy=strat_underlying, budget={"quick": 4800, "thorough": 30000}),
     SubCheck("static-identities", body_identities, classify_identities,
              rule="strikes, underlying values (incl. exactly at a strike), notionals, vector strikes, barrier paths: "
                   "call-put=forward, call spread and butterfly vs call combinations, digital call+put=1, KI+KO=vanilla "
                   "(fresh and reused objects), notional linear; non-trivial = barrier crossed or vector strikes",
-             strategy=strat_identities, budget={"quick": 1600, "thorough": 30000}),
+             strategy=strat_identities, budget={"quick": 4800, "thorough": 30000}),
     SubCheck("histories-on-one-underlying", body_underlying_history, classify_underlying_history,
              rule="every underlying class (incl. multi-name default times, n-th default, performances, indicators) as one "
                   "object valued on a generated sequence of 2..4 paths with representation switches in between: each "
                   "value bitwise equal to that of a fresh object; non-trivial = at least two different paths",
-             strategy=strat_underlying_history, budget={"quick": 2000, "thorough": 30000}, shards={"quick": 16, "thorough": 16}),
+             strategy=strat_underlying_history, budget={"quick": 6000, "thorough": 30000}, shards={"quick": 16, "thorough": 16}),
 ]
